@@ -146,6 +146,27 @@ def _naming():
     D['parameter-forwarded-under-other-names'] = mk(lambda t, s: P.forwarded(t, s, 'BOOT', 'START'))
     D['parameter-forwarded-under-the-same-name'] = mk(lambda t, s: P.forwarded(t, s, 'INIT', 'INIT'))
     D['parameter-forwarded-child-name-reused-above'] = mk(lambda t, s: P.forwarded(t, s, 'START', 'INIT'))
+    # transpiled behavioural children (local temporaries, constructor constants) and hand-written memory bodies inside a structural top
+    def behavioural(fname):
+        def build(t, s):
+            spec2 = importlib.util.spec_from_file_location('corpus_beh_' + fname, os.path.join(os.path.dirname(os.path.dirname(os.path.abspath(__file__))), 'corpus', 'behavioural', fname + '.py'))
+            M = importlib.util.module_from_spec(spec2)
+            import sys as _sys
+            _sys.modules[spec2.name] = M
+            spec2.loader.exec_module(M)
+            u = M.make(t)
+            for p_ in u.inPorts: t.addIn(p_.name, p_.wire)
+            for p_ in u.outPorts: t.addOut(p_.name, p_.wire)
+        return build
+    for fname in ('locals_and_const', 'nested_ops', 'if_elif_chain', 'match_case', 'comb_mux'):
+        D['behavioural-child-' + fname] = mk(behavioural(fname))
+    def memories(t, s):
+        from py4hw.logic import storage as S_
+        ra = s.wire('ra', 2); wa = s.wire('wa', 2); we = s.wire('we'); rd = s.wire('rd', 4); wd = s.wire('wd', 4); rd2 = s.wire('rd2', 4)
+        for n_, w_ in (('ra', ra), ('wa', wa), ('we', we), ('wd', wd)): t.addIn(n_, w_)
+        t.addOut('rd', rd); t.addOut('rd2', rd2)
+        S_.SynchronousMemory(t, 'smem', ra, wa, we, rd, wd); S_.AsynchronousMemory(t, 'amem', ra, wa, we, rd2, wd)
+    D['synchronous-and-asynchronous-memory-bodies'] = mk(memories)
     return D
 
 
